@@ -418,7 +418,7 @@ def encode : Ty → PyVal → R Bytes
           let a ← packInt .udint t
           let b ← packInt .uint d
           .ok (a ++ b)
-      | _ => .error (.foreign "TypeError")   -- wrong arity of the call itself
+      | _ => .error .data   -- (a call with the wrong arity is a caller error, outside the modelled domain)
   | .str lenK enc, v => encodeStr lenK enc v
   | .stringN cs, v => encodeStringN cs v
   | .stringI, v => encodeStringI v
